@@ -229,7 +229,7 @@ def rule_flow(run):
 
 def rule_eosflow(run):
     run.rule('EOSFLOW', 'the EOS name matched in the simulator string is stored in the variable the "EOS not '
-             'detected" test reads, on a path taken whenever MULTI gives no EOS name', floor=2)
+             'detected" test reads, on a path taken whenever MULTI gives no EOS name', floor=3)
     prog = run.prog
     fi = prog.func(CLS + 'eos_json')
     # result variable: the Name tested by the `if R: ... else: raise Exception('EOS not detected.')`
@@ -257,6 +257,27 @@ def rule_eosflow(run):
         run.violated(key, 'the matched EOS name is stored in %s, never in %s: with the EOS given only by the simulator string '
                      'the export raises "EOS not detected"' % (sorted(set(s.targets[0].id for s in stores)) or 'nothing', res),
                      where=fi.where(h))
+    # names that are suffixes of one another ('W' of 'EW'): the loop must end up with the longest match
+    tabn = [n for n in walk_no_nested(fi.node) if isinstance(n, ast.Assign) and norm(n.targets[0]) == 'supported_eos' and isinstance(n.value, ast.Dict)]
+    loop = None
+    for n in ast.walk(fi.node):
+        if isinstance(n, ast.For) and h in list(ast.walk(n)): loop = n
+    key3 = 't2data.eos_json :: longest EOS name wins among suffix-related names'
+    if tabn and loop is not None and norm(loop.iter) in ('supported_eos.keys()', 'supported_eos'):
+        keys = [const_str(k) for k in tabn[0].value.keys]
+        first_wins = any(isinstance(x, ast.Break) for x in ast.walk(h))
+        bad = []
+        for i, a in enumerate(keys):
+            for j, b in enumerate(keys):
+                if a != b and b.endswith(a):          # a is a proper suffix of b: b must win for a string ending in b
+                    winner = (a if i < j else b) if first_wins else (a if i > j else b)
+                    if winner != b: bad.append((a, b))
+        if bad:
+            run.violated(key3, 'with %s-match-wins and table order %s, a simulator string ending in %r is classified as %r'
+                         % ('first' if first_wins else 'last', keys, bad[0][1], bad[0][0]), where=fi.where(loop))
+        else: run.ok(key3, {'policy': 'first' if first_wins else 'last', 'order': keys}, where=fi.where(loop))
+    else:
+        run.unknown(key3, 'detection loop over the supported_eos table not recognised', where=fi.where(h))
     # reachability: the simulator branch must not be the `elif` of `if self.multi:` (MULTI present without an EOS name)
     from ..core import parent_map
     pm = parent_map(fi.node)
